@@ -922,4 +922,235 @@ theorem specHeaders_no_j (t : Bytes) (base : Nat) (h : ∀ c ∈ t, c ≠ 106) :
   unfold lineHeader
   rw [firstHit_no_j x.2 [] hsub]
 
+/-! ### a closed-form class of files: `layout` -/
+
+/-- an object as the reference layout writes it: number and generation as digit strings, body -/
+structure Obj where
+  dn : Bytes
+  dg : Bytes
+  body : Bytes
+
+def endobjKw : Bytes := [101, 110, 100, 111, 98, 106]
+
+/-- `N G obj` -/
+def headerLine (dn dg : Bytes) : Bytes := dn ++ [32] ++ dg ++ [32] ++ kwObj
+
+/-- `N G obj⏎ body ⏎endobj⏎` -/
+def objBytes (o : Obj) : Bytes := headerLine o.dn o.dg ++ 10 :: (o.body ++ 10 :: (endobjKw ++ [10]))
+
+/-- file header (ends with a line feed) followed by the objects -/
+def layout (hdr : Bytes) (objs : List Obj) : Bytes := hdr ++ 10 :: (objs.map objBytes).flatten
+
+/-- the true table: every object's header at the offset where `layout` puts it -/
+def trueHeaders : Nat → List Obj → List Header
+  | _, [] => []
+  | off, o :: r => ⟨digitsVal o.dn, digitsVal o.dg, off⟩ :: trueHeaders (off + (objBytes o).length) r
+
+def Digits (d : Bytes) : Prop := d ≠ [] ∧ ∀ c ∈ d, isDigit c = true
+
+/-- no line of these bytes (taken as whole lines) parses as a header -/
+def NoHeaderLine (b : Bytes) : Prop := ∀ base, specHeaders b base = []
+
+structure Obj.WF (o : Obj) : Prop where
+  dn : Digits o.dn
+  dg : Digits o.dg
+  nmax : digitsVal o.dn ≤ 4294967295
+  gmax : digitsVal o.dg ≤ 65535
+  body : NoHeaderLine o.body
+
+theorem wsLen_nonws (c : Nat) (r : Bytes) (h1 : c ≠ 32) (h2 : ¬ (9 ≤ c ∧ c ≤ 13)) (h3 : c ≠ 0xC2)
+    (h4 : c ≠ 0xE1) (h5 : c ≠ 0xE2) (h6 : c ≠ 0xE3) : wsLen (c :: r) = 0 := by
+  unfold wsLen
+  have e1 : (c = 32 || (9 ≤ c && c ≤ 13) : Bool) = false := by
+    simp only [Bool.or_eq_false_iff, decide_eq_false_iff_not]
+    refine ⟨h1, ?_⟩
+    rw [Bool.eq_false_iff]
+    intro hh
+    simp only [Bool.and_eq_true, decide_eq_true_eq] at hh
+    exact h2 hh
+  simp only [e1, Bool.false_eq_true, if_false, h3, h4, h5, h6]
+
+theorem wsLen_digit (c : Nat) (r : Bytes) (h : isDigit c = true) : wsLen (c :: r) = 0 := by
+  unfold isDigit at h
+  simp only [Bool.and_eq_true, decide_eq_true_eq] at h
+  apply wsLen_nonws <;> omega
+
+theorem tokensGo_digits (d rest cur : Bytes) (acc : List Bytes) (hd : ∀ c ∈ d, isDigit c = true) :
+    tokensGo (d ++ rest) 0 cur acc = tokensGo rest 0 (d.reverse ++ cur) acc := by
+  induction d generalizing cur with
+  | nil => rfl
+  | cons c r ih =>
+    have hc := hd c (List.mem_cons_self ..)
+    simp only [List.cons_append, tokensGo, wsLen_digit c _ hc, if_true]
+    rw [ih (c :: cur) (fun x hx => hd x (List.mem_cons_of_mem _ hx))]
+    simp
+
+theorem tokensGo_space (rest cur : Bytes) (acc : List Bytes) :
+    tokensGo (32 :: rest) 0 cur acc = tokensGo rest 0 [] (if cur.isEmpty then acc else cur.reverse :: acc) := by
+  simp [tokensGo, wsLen]
+
+theorem tokens_headerLine (dn dg : Bytes) (hn : Digits dn) (hg : Digits dg) :
+    tokens (headerLine dn dg) = [dn, dg, kwObj] := by
+  unfold tokens headerLine
+  have hne : dn.reverse.isEmpty = false := by
+    cases dn with
+    | nil => exact absurd rfl hn.1
+    | cons a b => simp
+  have hge : dg.reverse.isEmpty = false := by
+    cases dg with
+    | nil => exact absurd rfl hg.1
+    | cons a b => simp
+  rw [List.append_assoc, List.append_assoc, List.append_assoc, tokensGo_digits _ _ _ _ hn.2]
+  simp only [List.append_nil, List.cons_append, List.nil_append, tokensGo_space, hne, Bool.false_eq_true, if_false,
+    List.reverse_reverse]
+  rw [tokensGo_digits _ _ _ _ hg.2]
+  simp only [List.append_nil, tokensGo_space, hge, Bool.false_eq_true, if_false, List.reverse_reverse]
+  simp [kwObj, tokensGo, wsLen]
+
+theorem parseNum_digits (m : Nat) (d : Bytes) (hd : Digits d) (hm : digitsVal d ≤ m) :
+    parseNum m d = some (digitsVal d) := by
+  unfold parseNum
+  cases d with
+  | nil => exact absurd rfl hd.1
+  | cons a b =>
+    have ha := hd.2 a (List.mem_cons_self ..)
+    have hne : a ≠ 43 := by
+      unfold isDigit at ha
+      simp only [Bool.and_eq_true, decide_eq_true_eq] at ha
+      omega
+    have hall : (a :: b).all isDigit = true := List.all_eq_true.2 hd.2
+    have hm' : digitsVal (a :: b) ≤ m := hm
+    split
+    · rename_i r heq
+      cases heq
+      exact absurd rfl hne
+    · simp [hall, hm']
+
+theorem parse_headerLine (dn dg : Bytes) (hn : Digits dn) (hg : Digits dg)
+    (h1 : digitsVal dn ≤ 4294967295) (h2 : digitsVal dg ≤ 65535) :
+    parseObjHeader (headerLine dn dg) = some (digitsVal dn, digitsVal dg) := by
+  unfold parseObjHeader
+  rw [tokens_headerLine dn dg hn hg]
+  simp [parseNum_digits _ _ hn h1, parseNum_digits _ _ hg h2]
+
+theorem firstHit_skip (seg lr rest : Bytes) (h : ∀ c ∈ seg, c ≠ 106) :
+    firstHit lr (seg ++ rest) = firstHit (seg.reverse ++ lr) rest := by
+  induction seg generalizing lr with
+  | nil => rfl
+  | cons c r ih =>
+    have hc : c ≠ 106 := h c (List.mem_cons_self ..)
+    have hh : hitAt c lr = none := by
+      rcases hx : hitAt c lr with _ | x
+      · rfl
+      · obtain ⟨⟨p, hp⟩, _⟩ := (hitAt_iff c lr x).1 hx
+        have := congrArg List.reverse hp
+        simp [kwObj] at this
+        exact absurd this.1 hc
+    rw [List.cons_append]
+    conv => lhs; unfold firstHit
+    simp only [hh]
+    rw [ih (c :: lr) (fun x hx => h x (List.mem_cons_of_mem _ hx))]
+    simp
+
+theorem digit_ne_j (d : Bytes) (hd : ∀ c ∈ d, isDigit c = true) : ∀ c ∈ d, c ≠ 106 := by
+  intro c hc
+  have := hd c hc
+  unfold isDigit at this
+  simp only [Bool.and_eq_true, decide_eq_true_eq] at this
+  omega
+
+theorem firstHit_headerLine (dn dg : Bytes) (hn : Digits dn) (hg : Digits dg)
+    (h1 : digitsVal dn ≤ 4294967295) (h2 : digitsVal dg ≤ 65535) :
+    firstHit [] (headerLine dn dg) = some (digitsVal dn, digitsVal dg) := by
+  have e : headerLine dn dg = (dn ++ [32] ++ dg ++ [32] ++ [111, 98]) ++ [106] := by
+    simp [headerLine, kwObj]
+  have hno : ∀ c ∈ dn ++ [32] ++ dg ++ [32] ++ [111, 98], c ≠ 106 := by
+    intro c hc
+    simp only [List.mem_append, List.mem_cons, List.mem_nil_iff, or_false] at hc
+    rcases hc with (((hc | hc) | hc) | hc) | hc
+    · exact digit_ne_j dn hn.2 c hc
+    · omega
+    · exact digit_ne_j dg hg.2 c hc
+    · omega
+    · rcases hc with hc | hc <;> omega
+  rw [e, firstHit_skip _ _ _ hno]
+  unfold firstHit
+  have hh : hitAt 106 ((dn ++ [32] ++ dg ++ [32] ++ [111, 98]).reverse ++ []) =
+      some (digitsVal dn, digitsVal dg) := by
+    rw [hitAt_iff]
+    refine ⟨⟨dn ++ [32] ++ dg ++ [32], by simp [kwObj]⟩, ?_⟩
+    have : ((dn ++ [32] ++ dg ++ [32] ++ [111, 98]).reverse ++ []).reverse ++ [106] = headerLine dn dg := by
+      simp [headerLine, kwObj]
+    rw [this]
+    exact parse_headerLine dn dg hn hg h1 h2
+  simp only [hh]
+
+theorem headerLine_noeol (dn dg : Bytes) (hn : Digits dn) (hg : Digits dg) :
+    ∀ c ∈ headerLine dn dg, isEol c = false := by
+  intro c hc
+  have dig : ∀ d : Bytes, (∀ x ∈ d, isDigit x = true) → ∀ x ∈ d, isEol x = false := by
+    intro d hd x hx
+    have := hd x hx
+    unfold isDigit at this
+    simp only [Bool.and_eq_true, decide_eq_true_eq] at this
+    unfold isEol
+    simp only [Bool.or_eq_false_iff, decide_eq_false_iff_not]
+    omega
+  unfold headerLine kwObj at hc
+  simp only [List.mem_append, List.mem_cons, List.mem_nil_iff, or_false] at hc
+  rcases hc with (((hc | hc) | hc) | hc) | hc
+  · exact dig dn hn.2 c hc
+  · subst hc; decide
+  · exact dig dg hg.2 c hc
+  · subst hc; decide
+  · rcases hc with hc | hc | hc <;> subst hc <;> decide
+
+theorem specHeaders_append_eol (a : Bytes) (e : Nat) (he : isEol e = true) (rest : Bytes) (base : Nat) :
+    specHeaders (a ++ e :: rest) base = specHeaders a base ++ specHeaders rest (base + a.length + 1) := by
+  unfold specHeaders
+  rw [linesGo_append_eol _ _ he]
+  simp
+
+theorem specHeaders_headerLine (dn dg : Bytes) (hn : Digits dn) (hg : Digits dg)
+    (h1 : digitsVal dn ≤ 4294967295) (h2 : digitsVal dg ≤ 65535) (base : Nat) :
+    specHeaders (headerLine dn dg) base = [⟨digitsVal dn, digitsVal dg, base⟩] := by
+  unfold specHeaders
+  rw [linesGo_seg _ (headerLine_noeol dn dg hn hg)]
+  simp [lineHeader, firstHit_headerLine dn dg hn hg h1 h2]
+
+theorem specHeaders_endobj (base : Nat) : specHeaders endobjKw base = [] := by
+  unfold specHeaders
+  rw [linesGo_seg _ (by decide)]
+  simp only [List.reverse_nil, List.nil_append, List.filterMap_cons, List.filterMap_nil]
+  have : lineHeader (base, endobjKw) = none := by
+    unfold lineHeader
+    have : firstHit [] endobjKw = none := by decide
+    simp [this]
+  simp [this]
+
+theorem specHeaders_objBytes (o : Obj) (wf : o.WF) (rest : Bytes) (base : Nat) :
+    specHeaders (objBytes o ++ rest) base =
+      ⟨digitsVal o.dn, digitsVal o.dg, base⟩ :: specHeaders rest (base + (objBytes o).length) := by
+  have e : objBytes o ++ rest =
+      headerLine o.dn o.dg ++ 10 :: (o.body ++ 10 :: (endobjKw ++ 10 :: rest)) := by
+    simp [objBytes]
+  rw [e, specHeaders_append_eol _ _ (by decide), specHeaders_append_eol _ _ (by decide),
+    specHeaders_append_eol _ _ (by decide), specHeaders_headerLine _ _ wf.dn wf.dg wf.nmax wf.gmax,
+    wf.body, specHeaders_endobj]
+  simp only [List.nil_append, List.singleton_append, List.cons.injEq, true_and]
+  congr 1
+  simp [objBytes]
+  omega
+
+theorem specHeaders_objs (objs : List Obj) (wf : ∀ o ∈ objs, o.WF) (tail : Bytes) (base : Nat) :
+    specHeaders ((objs.map objBytes).flatten ++ tail) base =
+      trueHeaders base objs ++ specHeaders tail (base + (objs.map objBytes).flatten.length) := by
+  induction objs generalizing base with
+  | nil => simp [trueHeaders]
+  | cons o r ih =>
+    simp only [List.map_cons, List.flatten_cons, List.append_assoc, trueHeaders, List.length_append]
+    rw [specHeaders_objBytes o (wf o (List.mem_cons_self ..)),
+      ih (fun x hx => wf x (List.mem_cons_of_mem _ hx))]
+    simp [Nat.add_assoc]
+
 end OxiVerif.C19
